@@ -75,10 +75,12 @@ CHECKS = {
         'assumptions': ['only the two symbol tables are modelled (the property\'s shared tables)', 'sync.RWMutex semantics: writers exclude readers and writers', 'schedules of the implementation are sampled, the universal claim is the Lean theorem over the extracted lock discipline'],
     },
     'C04': {
-        'lean_modules': ['Pangaea.Theorems.C04'],
-        'theorem_modules': ['Pangaea.Theorems.C04'],
+        'lean_modules': ['Pangaea.Theorems.C04', 'Pangaea.Theorems.C04Core'],
+        'theorem_modules': ['Pangaea.Theorems.C04', 'Pangaea.Theorems.C04Core'],
         'theorems': ['Pangaea.C04.lit_list_spec', 'Pangaea.C04.prop_list_spec', 'Pangaea.C04.scalar_spec', 'Pangaea.C04.prop_reduce_spec',
-                     'Pangaea.C04.lit_reduce_spec', 'Pangaea.C04.forms_agree_list_scalar', 'Pangaea.C04.forms_agree_reduce', 'Pangaea.C04.list_chain_fail_stop'],
+                     'Pangaea.C04.lit_reduce_spec', 'Pangaea.C04.forms_agree_list_scalar', 'Pangaea.C04.forms_agree_reduce', 'Pangaea.C04.list_chain_fail_stop',
+                     # the Core evaluator's chain loops compute the sequential specifications ListRun / ReduceRun
+                     'Pangaea.C04.list_chain_elems', 'Pangaea.C04.reduce_chain_elems', 'Pangaea.C04.list_chain_value', 'Pangaea.C04.keep_plain', 'Pangaea.C04.keep_strict'],
         'harness': ['C04'],
         'shards': 14,
         'spec_is_function': True,
